@@ -571,7 +571,7 @@ class Summariser:
             return None
         if isinstance(f, ast.Name) and f.id.startswith("_") and f.id in M.functions and f.id not in st.env and not f.id[1:2].isupper():
             # a private package-level helper with several exits (straight-line): forked like a class helper
-            return self._multi_inline_fi(M.functions[f.id], call, st, static=True, bound=False)
+            return self._multi_inline_fi(M.functions[f.id], call, st, static=True, bound=False, loops_ok=True)
         if not (isinstance(f, ast.Attribute) and isinstance(f.value, ast.Name)) or not self.self_cls:
             return None
         meth = f.attr
@@ -590,15 +590,15 @@ class Summariser:
             return None
         return self._multi_inline_fi(fi, call, st, static=static, bound=bound)
 
-    def _multi_inline_fi(self, fi, call, st, static, bound, procedure=False):
+    def _multi_inline_fi(self, fi, call, st, static, bound, procedure=False, loops_ok=False):
         if fi.node is self.fi.node or any(isinstance(a, ast.Starred) for a in call.args) or any(k.arg is None for k in call.keywords):
             return None
         if procedure:
             if any(isinstance(n, (ast.Try, ast.With, ast.Yield, ast.YieldFrom)) for n in ast.walk(fi.node)) or not any(isinstance(n, (ast.For, ast.While)) for n in ast.walk(fi.node)):
                 return None
-        elif any(isinstance(n, (ast.For, ast.While, ast.Try, ast.With)) for n in ast.walk(fi.node)):
+        elif any(isinstance(n, (ast.Try, ast.With) if loops_ok else (ast.For, ast.While, ast.Try, ast.With)) for n in ast.walk(fi.node)):
             return None        # only straight-line helpers (branches and comprehensions); anything with loops or handlers stays a call
-        elif not any(isinstance(n, (ast.If, ast.IfExp, ast.BoolOp, ast.Raise)) for n in ast.walk(fi.node)):
+        elif not any(isinstance(n, (ast.If, ast.IfExp, ast.BoolOp, ast.Raise) + ((ast.For, ast.While) if loops_ok else ())) for n in ast.walk(fi.node)):
             return None        # a helper without branches is inlined by the ordinary (single-exit) route
         probe = st.fork()
         args = [self.expr(a, probe) for a in call.args]
